@@ -255,7 +255,9 @@ impl Hist {
 					None => false,
 				};
 				if !on_chain {
-					if fl.posted && fl.fin.is_some() {
+					// (a reservation, a signed reply or a finalized transaction of the old database: whatever
+					// completes it later spends outputs the new database never reserved)
+					if fl.locked || fl.s2.is_some() || fl.fin.is_some() {
 						spends_unreserved = true;
 					}
 					fl.locked = false;
